@@ -59,11 +59,16 @@ fn kref(kernel: &str, p1: f64, p2: f64, a: &[f64], b: &[f64]) -> f64 {
         "gaussian" => (-refmath::sqdist(a, b) / p1).exp(),
         "poly" => {
             let base = refmath::dot(a, b) + p1;
-            let mut r = 1.0;
-            for _ in 0..(p2 as usize) {
-                r *= base;
+            if p2.fract() == 0.0 && p2 >= 0.0 {
+                let mut r = 1.0;
+                for _ in 0..(p2 as usize) {
+                    r *= base;
+                }
+                r
+            } else {
+                // real power of a positive base (the caller filters base <= 0 as out of domain)
+                (p2 * base.ln()).exp()
             }
-            r
         }
         _ => panic!("unknown kernel"),
     }
@@ -254,6 +259,16 @@ fn run_typed<F: Float>(case: &Case, viols: &mut Vec<Violation>) -> Counters {
         v.as_object_mut().unwrap().insert("at".into(), at);
         v
     };
+    // domain of a fractional polynomial degree: every base <x,y>+c clearly positive (a real power
+    // of a negative base does not exist, and near 0 the power is ill-conditioned)
+    if case.kernel == "poly" && p2.fract() != 0.0 {
+        let minbase = (0..n).flat_map(|i| (0..n).map(move |j| (i, j))).map(|(i, j)| refmath::dot(&pts[i], &pts[j]) + p1).fold(f64::INFINITY, f64::min);
+        if minbase < 0.01 {
+            bump(&mut cnt, "out_of_domain", 1);
+            return cnt;
+        }
+        bump(&mut cnt, "fractional_degree_cases", 1);
+    }
     let kr: Vec<Vec<f64>> = (0..n).map(|i| (0..n).map(|j| kref(&case.kernel, p1, p2, &pts[i], &pts[j])).collect()).collect();
     let d2: Vec<Vec<f64>> = (0..n).map(|i| (0..n).map(|j| refmath::sqdist(&pts[i], &pts[j])).collect()).collect();
     let d2max = d2.iter().flatten().cloned().fold(0.0, f64::max).max(1e-300);
@@ -788,7 +803,7 @@ fn main() {
         "cases = (point set, float type, kernel method). Point sets: every subset of 2..5 (quick) / 2..6 (thorough) points of the 3x3 lattice, \
          the generic-position image of each (constant jitter table), the un-centred affine images offset + spacing x p of every 2..4-subset with (offset, spacing) in {(1e8,1) f64, (-1e6,0.5) f64, (1e3,0.125) f64+f32}, the empty record matrix, every multiset of 1..5 points of {0..4} on a line (duplicates up to 3x), \
          every subset of 2..5 / 2..6 of a pool of 7 three-feature points, and large sets above the neighbour-index leaf size of 16 (5x5 grid, its generic image, 20 points on a line in duplicate pairs, \
-         generic 3x3x3 cube; thorough also 6x6, generic 6x6 and 7x7 grids). Kernel methods Linear, Gaussian(0.5), Gaussian(2) (thorough also 0.125, 8), Polynomial(c in {0,1}, d in {1,2,3}); f64 and f32. \
+         generic 3x3x3 cube; thorough also 6x6, generic 6x6 and 7x7 grids). Kernel methods Linear, Gaussian(0.5), Gaussian(2) (thorough also 0.125, 8), Polynomial(c in {0,1}, d in {1,2,3}) and Polynomial(1, 0.5 / 1.5 / 2.5), Polynomial(0.3, 2 / 1.5); f64 and f32; a fractional degree on a point set with some <x,y>+c < 0.01 is out of domain (counted). \
          Per case: Dense and Sparse(k) for EVERY 0<k<n with LinearSearch / KdTree / BallTree, owned kernel and view: every stored cell vs the reference kernel function, \
          pattern vs the brute-force k-nearest ranking, size/sum/column/diagonal/to_upper_triangle/dot(3 right-hand sides) vs the stored matrix, documented panics (k in {0,n,n+1}, dot shape, column index). \
          Clustering sweep on every kernel of a case with a distinct matrix (quick: f64 Gaussian, Linear, Polynomial(1,2); thorough: all methods, f64 and f32; large sets: generic Gaussian kernels, dense and k in {1,2,5}): \
@@ -796,7 +811,7 @@ fn main() {
          evaluations = kernels built + clustering runs; non-trivial = kernels on n>=2 records (sparse: exact pattern with at least one absent pair), NumClusters with 1<c<n, thresholds that give 1 < #clusters < n; \
          distinct by construction of the enumerators.",
     );
-    ctx.assume("kernel functions as pinned by the crate's tests: Gaussian(eps) = exp(-|x-y|^2/eps), Polynomial(c,d) = (<x,y>+c)^d, Linear = <x,y>; reference in f64 from the coordinates / parameters as rounded to the subject's float type");
+    ctx.assume("kernel functions as pinned by the crate's tests: Gaussian(eps) = exp(-|x-y|^2/eps), Polynomial(c,d) = (<x,y>+c)^d (integer d by repeated multiplication, fractional d as exp(d ln base)), Linear = <x,y>; reference in f64 from the coordinates / parameters as rounded to the subject's float type");
     ctx.assume("stored kernel values vs reference: relative 1e-12 (f64) / 3e-5 (f32); sums and products vs the stored matrix: same tolerances scaled by n x magnitude; column / diagonal / upper triangle are copies and compared exactly; Gaussian diagonal == 1 exactly; PSD: smallest Jacobi eigenvalue >= -1e-10 (f64) / -1e-4 (f32), dense Gaussian kernels only");
     ctx.assume("sparse pattern: pair (i,j) must be stored when j is among i's k nearest under every tie-break and may be stored when under some tie-break (squared-distance margin 1e-12 (f64) / 1e-5 (f32) x largest squared distance); where the two bounds coincide (generic position) the pattern is compared exactly, for each of the three indices; otherwise the case is also counted as indeterminate (tie-robust bounds only)");
     ctx.assume("clustering oracle input = the kernel's own stored matrix (verified against the kernel function in the same case), dissimilarity d = -ln(max(K,1e-6)) computed with the same operations in the kernel's float type (kernels with K>1 give negative d, which the reference handles like any number); trusted base: the Lance-Williams formulas of linkref.rs with the SciPy/fastcluster convention (Ward/Centroid/Median on squared input, height = sqrt)");
@@ -857,6 +872,10 @@ fn main() {
             methods.push(("poly", c, d));
         }
     }
+    // parameters that are not "round": fractional degrees and a constant that is not representable
+    for (c, d) in [(1.0, 0.5), (1.0, 1.5), (1.0, 2.5), (0.3, 2.0), (0.3, 1.5)] {
+        methods.push(("poly", c, d));
+    }
     let mut cases: Vec<Case> = Vec::new();
     for (is_big, (fam, pts, d)) in sets.iter().map(|s| (false, s)).chain(big.iter().map(|s| (true, s))) {
         for f in ["f64", "f32"] {
@@ -915,10 +934,13 @@ fn main() {
         for _ in 0..*cnt.get("indeterminate").unwrap_or(&0) {
             ctx.indeterminate();
         }
+        for _ in 0..*cnt.get("out_of_domain").unwrap_or(&0) {
+            ctx.out_of_domain();
+        }
         {
             let mut t = totals.lock().unwrap();
             for (k, n) in cnt {
-                if k != "evals" && k != "nontrivial" && k != "indeterminate" {
+                if k != "evals" && k != "nontrivial" && k != "indeterminate" && k != "out_of_domain" {
                     *t.entry(k).or_insert(0) += n;
                 }
             }
